@@ -44,7 +44,7 @@ def main():
                 "| fix commit | property | defect | suite on the copy | reported by checks | by its property's check |\n|---|---|---|---|---|---|\n")
         f.write("\n".join(rows) + "\n")
     srows = []
-    for d in sorted(glob.glob(os.path.join(VERIF, "seeded", "C*")) + glob.glob(os.path.join(VERIF, "seeded", "R2-C*")) + glob.glob(os.path.join(VERIF, "seeded", "R3-C*")) + glob.glob(os.path.join(VERIF, "seeded", "R4-*")) + glob.glob(os.path.join(VERIF, "seeded", "R5-*")) + glob.glob(os.path.join(VERIF, "seeded", "R6-*")) + glob.glob(os.path.join(VERIF, "seeded", "R7-*")) + glob.glob(os.path.join(VERIF, "seeded", "R8-*"))):
+    for d in sorted(glob.glob(os.path.join(VERIF, "seeded", "C*")) + glob.glob(os.path.join(VERIF, "seeded", "R2-C*")) + glob.glob(os.path.join(VERIF, "seeded", "R3-C*")) + glob.glob(os.path.join(VERIF, "seeded", "R4-*")) + glob.glob(os.path.join(VERIF, "seeded", "R5-*")) + glob.glob(os.path.join(VERIF, "seeded", "R6-*")) + glob.glob(os.path.join(VERIF, "seeded", "R7-*")) + glob.glob(os.path.join(VERIF, "seeded", "R8-*")) + glob.glob(os.path.join(VERIF, "seeded", "R9-*"))):
         name = os.path.basename(d)
         mp = os.path.join(d, "meta.json")
         meta = load(mp) or {}
